@@ -19,6 +19,8 @@ def blob_spec_for(key_type, size_info):
             return {'t': 'cert', 'kind': 'ssh-rsa-cert-v01@openssh.com', 'bits': hs or 4096, 'ca': ca}
         if key_type.startswith('ssh-ed25519'):
             return {'t': 'cert', 'kind': 'ssh-ed25519-cert-v01@openssh.com', 'ca': ca}
+        if key_type.startswith(('sk-ssh-ed25519', 'sk-ecdsa-sha2-nistp256', 'ecdsa-sha2-nistp', 'ssh-dss')):
+            return {'t': 'cert', 'kind': key_type, 'ca': ca}      # every key kind a policy may list gets a well-formed blob of its own kind
         return None
     if key_type in RSA_FAMILY:
         return {'t': 'rsa', 'bits': hs or 4096}
@@ -30,6 +32,10 @@ def blob_spec_for(key_type, size_info):
         return {'t': 'ecdsa', 'curve': key_type[len('ecdsa-sha2-'):]}
     if key_type == 'ssh-dss':
         return {'t': 'dss'}
+    if key_type == 'sk-ssh-ed25519@openssh.com':
+        return {'t': 'sk-ed25519'}
+    if key_type == 'sk-ecdsa-sha2-nistp256@openssh.com':
+        return {'t': 'sk-ecdsa'}
     return None
 
 
